@@ -1,1 +1,124 @@
 //! Kani harnesses compiled as a child module of vtx/src/lib.rs (cfg(kani) only).
+//! Property C15 for VTX files: header and strings scan are total on arbitrary bytes.
+#![allow(dead_code)]
+use super::*;
+use std::io::{Read, Seek, SeekFrom};
+
+/// In-memory reader that counts how often it is asked for data after the end of the file.
+pub(crate) struct CountingReader {
+    pub data: [u8; 24],
+    pub len: usize,
+    pub pos: usize,
+    pub eof_reads: u32,
+}
+
+impl Read for CountingReader {
+    fn read(&mut self, buf: &mut [u8]) -> std::io::Result<usize> {
+        if self.pos >= self.len {
+            self.eof_reads += 1;
+            // a loader that keeps polling a finished file never terminates
+            kani::assert(self.eof_reads <= 3, "c15.vtx.no_endless_polling_at_eof");
+            return Ok(0);
+        }
+        let n = if buf.len() < self.len - self.pos { buf.len() } else { self.len - self.pos };
+        let mut i = 0;
+        while i < n {
+            buf[i] = self.data[self.pos + i];
+            i += 1;
+        }
+        self.pos += n;
+        Ok(n)
+    }
+}
+
+impl Seek for CountingReader {
+    fn seek(&mut self, pos: SeekFrom) -> std::io::Result<u64> {
+        let p = match pos {
+            SeekFrom::Start(p) => p as i64,
+            SeekFrom::End(d) => self.len as i64 + d,
+            SeekFrom::Current(d) => self.pos as i64 + d,
+        };
+        // contract: negative positions are an error; the harness never needs them
+        kani::assume(p >= 0);
+        self.pos = p as usize;
+        Ok(p as u64)
+    }
+}
+
+fn no_format(_args: core::fmt::Arguments<'_>) -> String {
+    String::new()
+}
+
+// @harness
+// @prop C15
+// @tier quick
+// @timeout 1500
+// @fn Vtx::load (identifier, stereo byte, header fields, strings-block scan, strings re-read)
+// @sym every byte of a VTX file of 16..21 bytes (header + up to 5 bytes of strings block), file length
+// @assert for any bytes the loader returns (no panic, no arithmetic overflow, no out-of-bounds) and never keeps polling the reader after the end of the file (which would be an endless loop on a truncated file); with at most 5 strings bytes the LH5 decoder is not reached, so the result must be an error
+// @bound files of at most 21 bytes (unwind 260 covers the 256-byte scan buffer); longer strings blocks and the LH5 body are outside
+// @stub alloc::fmt::format -> empty string (error message formatting is not the subject)
+// @outside delharc LH5 decoding; allocation size of the frame buffer (read off the code: sized by a 32-bit header field, see DESIGN.md)
+#[kani::proof]
+#[kani::unwind(260)]
+#[kani::stub(alloc::fmt::format, no_format)]
+fn c15_vtx_header_and_strings_total() {
+    let data: [u8; 24] = kani::any();
+    let len: usize = kani::any();
+    kani::assume(len >= 16 && len <= 21);
+    let r = Vtx::load(CountingReader { data, len, pos: 0, eof_reads: 0 });
+    let ok = r.is_ok();
+    core::mem::forget(r);
+    kani::assert(!ok, "c15.vtx.truncated_file_is_rejected");
+    kani::cover!(data[0] == b'a' && data[1] == b'y' && data[2] == 1 && len == 21, "valid header, strings block cut short");
+    kani::cover!(data[0] == b'y' && data[1] == b'm' && data[2] == 6, "YM identifier, CBA stereo");
+}
+
+// @harness
+// @prop C15 C20
+// @tier quick
+// @timeout 900
+// @fn Player::new; Player::play; Vtx::frame_registers; Vtx::frames_count
+// @sym every header field a file can carry (player frequency 0..255, chip frequency, stereo mode), frame data length 0..29 bytes (so also lengths that are not a multiple of 14), sample rate 0..400, request length <= 4
+// @assert constructing a player for any loadable track and asking it for samples never panics (no division by zero, no out-of-bounds frame access) and returns at most the requested number of samples
+// @bound <= 2 frames, <= 4 samples requested
+#[kani::proof]
+#[kani::unwind(32)]
+fn c15_vtx_player_total_on_any_header() {
+    let n: usize = kani::any();
+    kani::assume(n <= 29);
+    let bytes: [u8; 29] = kani::any();
+    let mut frame_data = Vec::with_capacity(29);
+    let mut i = 0;
+    while i < 29 {
+        if i < n {
+            frame_data.push(bytes[i]);
+        }
+        i += 1;
+    }
+    let vtx = Vtx {
+        chip: if kani::any() { SoundChip::AY } else { SoundChip::YM },
+        stereo: Stereo::ABC,
+        frequency: kani::any(),
+        player_frequency: kani::any(),
+        loop_start_frame: kani::any(),
+        year: 0,
+        title: String::new(),
+        author: String::new(),
+        from: String::new(),
+        tracker: String::new(),
+        comment: String::new(),
+        frame_data,
+    };
+    kani::assert(vtx.frames_count() == n / 14, "c15.vtx.frame_count");
+    kani::assert(vtx.frame_registers(2).is_none(), "c15.vtx.frame_index_checked");
+    let pf = vtx.player_frequency;
+    let rate: usize = kani::any();
+    kani::assume(rate <= 400);
+    let mut p = player::Player::<player::verif_hooks::RecAy>::new(vtx, rate, kani::any());
+    let mut buf = [0f64; 4];
+    let got = p.play(&mut buf);
+    kani::assert(got <= 4, "c15.vtx.play_bounded_by_request");
+    kani::cover!(pf == 0, "player frequency 0 in the file");
+    kani::cover!(rate < pf as usize && got == 4, "more frames per second than samples");
+}
